@@ -410,14 +410,14 @@ def spec_check_unroll(case, tr, tail):
     mem = decode(case['bits'][b][0], case['bits'][b][1], thin, T * r + 1)
     outs, _, _ = py_spec(mem, acts, L, r)
     rp = dict(L=L, r=r, thin=thin, bits=[int(x) for x in case['bits'][b]], ptab=[float(x) for x in case['ptab']],
-              T=T, case_kind='unroll')
+              T=T, case_kind='unroll', member=b)
     for t in range(T):
       rew, steps, done, trunc, obs, _, _ = outs[t]
       if t + 1 < T and not np.array_equal(tr[t + 1, b, 0:3], tr[t, b, 6:9]):
         return dict(key='C15:chain', what=f'transitions do not chain: observation[{t + 1}]={tr[t + 1, b, 0:3].tolist()} '
                     f'next_observation[{t}]={tr[t, b, 6:9].tolist()}', **rp)
-      exp = [rew, 1 - done] + obs + [trunc]
-      got = [tr[t, b, 4], tr[t, b, 5]] + tr[t, b, 6:9].tolist() + [tr[t, b, 9]]
+      exp = [float(x) for x in [rew, 1 - done] + obs + [trunc]]
+      got = [float(x) for x in [tr[t, b, 4], tr[t, b, 5]] + tr[t, b, 6:9].tolist() + [tr[t, b, 9]]]
       if got != exp:
         return dict(key='C15:transition', what=f'transition {t}: (reward, discount, next_observation, truncation) = {got}, '
                     f'episode log says {exp}', **rp)
@@ -447,6 +447,24 @@ def spec_check_evaluator(L, r, thin, B, ptab, seed, ev, emems):
     return dict(key='C15:evaluator-length', what=f'Evaluator: avg_episode_length = {ev["avg_len"]}, the log says {tot / B}',
                 L=L, r=r, thin=thin, case_kind='evaluator', B=B, ptab=[float(x) for x in ptab], seed=seed)
   return None
+
+
+def confirm_failure(case, f):
+  """make the replay reproduce: a failure that needs the other batch members keeps the whole batch"""
+  if f.get('case_kind') == 'evaluator':
+    return f
+  single = dict(case, bits=np.array([f['bits']], dtype=np.uint64))
+  if f.get('case_kind') == 'unroll':
+    tr, tail = run_unroll(case['L'], case['r'], case['thin'], single['bits'], case['ptab'], int(f['T']), 0)
+    alone = spec_check_unroll(single, tr, tail)
+  else:
+    single['acts'] = np.array(f['acts'], dtype=np.float64)[:, None]
+    alone = spec_check_member(single, 0, run_wrapped(case['L'], case['r'], case['thin'], single['bits'], single['acts'], True))
+  if alone:
+    return f
+  return dict(f, what=f['what'] + ' — only inside its batch (alone the member behaves): cross-member dependence',
+              batch_bits=[[int(x) for x in row] for row in case['bits']],
+              batch_acts=[[float(x) for x in row] for row in case['acts']], member=int(f.get('member', 0)))
 
 
 def correspond(ctx):
@@ -488,9 +506,9 @@ def correspond(ctx):
       plan.append((ci, 'unroll', b)); real.append(np.concatenate([tr[:, b, :].ravel(), tail[b]]))
     # python spec vs implementation, every member; python spec vs Lean spec for members indexed globally
     for b in range(B):
-      f = spec_check_member(c, b, re)
+      f = spec_check_member(c, b, re) if len(spec_failures) < 6 else None
       if f:
-        spec_failures.append(f)
+        spec_failures.append(confirm_failure(c, dict(f, member=b)))
       if not mems[b]['local'] and (B <= 8 or b % 16 == 0):
         outs, _, log = py_spec(mems[b], list(acts[:, b]), L, r)
         lines.append(' '.join(['log', str(L), str(r), str(T), str(N)] + mtoks[b] + [hexf(x) for x in acts[:, b]]))
@@ -499,7 +517,7 @@ def correspond(ctx):
                              sum([[len(e)] + e for e in log], []), dtype=np.float64))
     f = spec_check_unroll(c, tr, tail)
     if f:
-      spec_failures.append(f)
+      spec_failures.append(confirm_failure(c, f))
     # Evaluator: random reset keys; read the schedule of each member back from b0/b1
     Be, te = c['eval_B'], c['eval_thin']
     ev = run_evaluator(L, r, te, Be, c['ptab'], ctx.seed + ci)
@@ -644,7 +662,7 @@ def _spec_vs_real(case):
   for b in range(len(case['bits'])):
     f = spec_check_member(case, b, re)
     if f:
-      fails.append(f)
+      fails.append(dict(f, member=b))
   if 'ptab' in case:
     tr, tail = run_unroll(case['L'], case['r'], case['thin'], case['bits'], case['ptab'], case['acts'].shape[0], 0)
     f = spec_check_unroll(case, tr, tail)
@@ -663,7 +681,7 @@ def search(ctx, broken, corr):
     T = 3 * -(-L // r)
     case = dict(L=L, r=r, thin=1, bits=rand_bits(rng, B, 1, -1), acts=rand_actions(rng, T, B, 0.03),
                 ptab=rng.integers(-1, 3, size=4).astype(np.float64))
-    found = _spec_vs_real(case)
+    found = [dict(f, _case=case) for f in _spec_vs_real(case)]
   # smallest failing member first: fewest steps
   found.sort(key=lambda f: (f.get('step', 99), len(f.get('acts', []))))
   out, seen = [], set()
@@ -671,9 +689,7 @@ def search(ctx, broken, corr):
     if f['key'] in seen:
       continue
     seen.add(f['key'])
-    if 'acts' in f and 'step' in f:       # shrink the history to the failing step
-      f = dict(f, acts=f['acts'][:f['step']])
-    out.append(f)
+    out.append(confirm_failure(f.pop('_case'), f))
   return out[:3]
 
 
@@ -690,9 +706,15 @@ def replay(ctx, rp):
     emems = [decode(ev['b0'][b], ev['b1'][b], thin, (L // r) * r + 1) for b in range(B)]
     f = spec_check_evaluator(L, r, thin, B, ptab, seed, ev, emems) if L // r else None
   elif rp.get('case_kind') == 'unroll':
-    case = dict(L=L, r=r, thin=thin, bits=np.array([rp['bits']], dtype=np.uint64), ptab=np.array(rp['ptab'], dtype=np.float64))
+    bits = np.array(rp.get('batch_bits', [rp['bits']]), dtype=np.uint64)
+    case = dict(L=L, r=r, thin=thin, bits=bits, ptab=np.array(rp['ptab'], dtype=np.float64))
     tr, tail = run_unroll(L, r, thin, case['bits'], case['ptab'], int(rp['T']), 0)
     f = spec_check_unroll(case, tr, tail)
+  elif 'batch_bits' in rp:
+    case = dict(L=L, r=r, thin=thin, bits=np.array(rp['batch_bits'], dtype=np.uint64),
+                acts=np.array(rp['batch_acts'], dtype=np.float64))
+    re = run_wrapped(L, r, thin, case['bits'], case['acts'], True)
+    f = spec_check_member(case, int(rp['member']), re)
   else:
     case = dict(L=L, r=r, thin=thin, bits=np.array([rp['bits']], dtype=np.uint64),
                 acts=np.array(rp['acts'], dtype=np.float64)[:, None])
